@@ -95,6 +95,7 @@ def _obs(a):
     for k in _SUMMARY_KEYS:
         assert d[k] == getattr(su, k), "as_dict()[%r] = %r, summary.%s = %r" % (k, d[k], k, getattr(su, k))
     assert dict(d["deficiency_one_structural"]) == dict(one)
+    assert a.as_dict() == d and a.summary == su                  # repeated reads
     # derived views
     assert a.explain() == "Deficiency=%s, Linkage-classes=%s, Weakly-reversible=%s" % (su.deficiency, su.n_linkage_classes, su.weakly_reversible), a.explain()
     assert repr(a) == "<DeficiencyAnalyzer deficiency=%s>" % su.deficiency, repr(a)
@@ -121,6 +122,8 @@ def _apply_edit(H, e):
         eid, rule, l, r = e[1]
         H.remove_rxn(eid)
         H.add_rxn({s: c for s, c in l}, {s: c for s, c in r}, rule=rule, edge_id=eid)
+    elif e[0] == "probe":                     # other routes / non-default options on the same object; the network is unchanged
+        _probe(H, e[1])
     elif e[0] == "coef":                      # in-place edit of a stored coefficient
         side = H.edges[e[1]].reactants if e[2] == "l" else H.edges[e[1]].products
         assert e[3] in side.data
@@ -128,6 +131,40 @@ def _apply_edit(H, e):
     else:
         eid, rule, l, r = e[1]
         H.add_rxn({s: c for s, c in l}, {s: c for s, c in r}, rule=rule, edge_id=eid)
+
+
+def _probe(X, k):
+    """Calls that must not influence later default analyses of the same object (non-default export options, loose tolerance,
+    an analyzer without rank function, a caller editing returned values)."""
+    import warnings
+    warnings.filterwarnings("ignore")
+    from synkit.CRN.Hypergraph.conversion import _as_bipartite, hypergraph_to_bipartite
+    from synkit.CRN.Hypergraph.hypergraph import CRNHyperGraph
+    from synkit.CRN.Props.stoich import stoichiometric_matrix, stoichiometric_rank
+    from synkit.CRN.Props.deficiency import DeficiencyAnalyzer
+    if k == 0:
+        _as_bipartite(X, integer_ids=False, include_stoich=False)
+        if isinstance(X, CRNHyperGraph):
+            hypergraph_to_bipartite(X, include_role=False, include_isolated_species=False)
+    elif k == 1:
+        stoichiometric_rank(X, tol=1.0)
+        S = stoichiometric_matrix(X)
+        try:
+            S[:] = 0
+        except Exception:
+            pass
+    elif k == 2:
+        try:
+            b = DeficiencyAnalyzer(X, rank_fn=None).compute_crn_deficiency()
+            b.linkage_deficiencies.append(7)
+            b._complexes.reverse()
+        except ValueError:
+            pass
+    else:
+        G = _as_bipartite(X)
+        if G is not X:                        # the caller edits the returned export
+            for _, _, d in G.edges(data=True):
+                d["stoich"] = 5
 
 
 def _apply_edit_bip(G, e):
@@ -172,7 +209,10 @@ def _history(case):
         if e is not None:
             _apply_edit(H, e)
             if Xv is not H:
-                _apply_edit_bip(Xv, e)
+                if e[0] == "probe":
+                    _probe(Xv, e[1])
+                else:
+                    _apply_edit_bip(Xv, e)
         try:
             _reanalyze(a, case.get("style", 0))
             reused = a
@@ -219,8 +259,11 @@ def _analyze_api(case, Xv):
         return DeficiencyAnalyzer(Xv).run_deficiency_one_algorithm()
     if v == "twice":                         # idempotence on an unchanged network
         a = DeficiencyAnalyzer(Xv).compute_crn_deficiency()
-        a.as_dict()["linkage_deficiencies"].append(99)          # the caller edits a returned list / dict
+        a.as_dict()["linkage_deficiencies"].append(99)          # the caller edits returned lists / dicts / the dataclass
         a.as_dict()["deficiency_one_structural"]["regular"] = "x"
+        a.linkage_deficiencies.append(5)
+        a.deficiency_one_structural["regular"] = "y"
+        a.summary.n_complexes = 99
         return a.compute_crn_deficiency()
     if v in ("und", "multi"):
         U = _undirected_view(Xv, v == "multi")
